@@ -20,7 +20,8 @@ RULE = ('bounded-exhaustive: every nesting context = word of length 0..3 over {I
         'configuration and the top-level observation; the top tape\'s flags after the run must equal the configuration; '
         'SET_FLAG / UNSET_FLAG k must change exactly integer flag k. non-trivial = depth >= 1 and a non-default '
         'configuration; all cases distinct by construction (context word, probe, configuration).'
-        ' Flag instructions for flags 0-10 under 41 placements relative to the probe: direct, persist (idle LOOP / CALL / IF / TRY / EVAL in between), inherit (probe inside each of 11 constructs entered afterwards), viafn (the instruction in a function called inside the construct), noopcall (metamorphic: an idle CALL next to the instruction changes nothing observed after the construct), loopcarry (instruction in iteration 1 of a LOOP - directly or in a called function -, probe in iteration 2).')
+        ' Flag instructions for flags 0-10 under 41 placements relative to the probe: direct, persist (idle LOOP / CALL / IF / TRY / EVAL in between), inherit (probe inside each of 11 constructs entered afterwards), viafn (the instruction in a function called inside the construct), noopcall (metamorphic: an idle CALL next to the instruction changes nothing observed after the construct), loopcarry (instruction in iteration 1 of a LOOP - directly or in a called function -, probe in iteration 2).'
+        ' Task named: flag instructions whose operand spells one of the four named settings leave the setting in force. Task budget: under limit L = 1..3 every mixture of L-1 / L / L+1 call-like constructs (CALL, EVAL, MERKLEVAL, TAPROOT script path; one IF / ELSE / TRY / EXCEPT / LOOP body at any position) runs its innermost body exactly when their number is <= L. Signature-plugin probes also with flag 10 off.')
 ASSUMPTIONS = ['the configuration is handed to run_tape exactly as run_script does (tape.contracts, tape.plugins, '
                'additional_flags) so that the cache can be inspected after failed runs as well',
                'clock pinned']
@@ -203,7 +204,8 @@ def configs_for(kind, param):
     if kind == 'evalreturn':
         return [('set', {'additional_flags': {'eval_return': True}}), ('default', {})]
     if kind == 'sigplugin':
-        return [('plugin', {'plug': True})]
+        # flag 10 is documented for CHECK_TEMPLATE(_VERIFY) only: every other signature instruction runs the plugins regardless
+        return [('plugin', {'plug': True}), ('plugin-flag10-off', {'plug': True, 'additional_flags': {10: False}})]
     if kind == 'ctplugin':
         return [('plugin', {'ctplug': True}), ('default', {})]
     if kind in ('invoke', 'transfer'):
@@ -259,10 +261,10 @@ def expected_flags(given):
     return exp
 
 
-def judge(pname, word, cfgname, _attr=True):
+def judge(pname, word, cfgname, _attr=True, code_override=None):
     """-> list of (signature, detail)"""
     code, kind, param = PROBES[pname]
-    r = run_probe(pname, word, cfgname)
+    r = run_probe(pname, word, cfgname, code_override=code_override)
     fails = []
     c = r['cache']
     where = '%s in [%s] cfg %s' % (pname, ' > '.join(word) or 'top level', cfgname)
@@ -305,8 +307,9 @@ def judge(pname, word, cfgname, _attr=True):
         elif cfgname == 'default' and b'after' not in c:
             bad('RETURN-inside-EVAL-ended-the-caller-without-eval_return', '')
     elif kind == 'sigplugin':
-        if r['sig'] != 1:
-            bad('signature-plugin-count', 'ran %d times, expected exactly 1' % r['sig'])
+        want = 0 if (cfgname == 'plugin-flag10-off' and 'CHECK_TEMPLATE' in pname) else 1
+        if r['sig'] != want:
+            bad('signature-plugin-count', 'ran %d times, expected exactly %d' % (r['sig'], want))
     elif kind == 'ctplugin':
         if cfgname == 'plugin' and (r['ct'] != 1 or c.get(b'r') != [b'\xff']):
             bad('check_template-plugin-not-used', 'calls %d verdict %r' % (r['ct'], c.get(b'r')))
@@ -439,6 +442,10 @@ def check_case(case):
         if pl not in PLACEMENTS:
             raise ValueError('placement')
         return judge_flagop(case['op'], case['flag'], word, pl)
+    if k == 'named':
+        return check_named(case)
+    if k == 'budget':
+        return check_budget(case)
     raise ValueError(k)
 
 
@@ -508,6 +515,105 @@ def task_flagops(ctx):
     ctx.sample({'check': 'flagop', 'context': ['IF'], 'op': 'OP_UNSET_FLAG', 'flag': 1})
 
 
+NAMED = {'disallow_OP_EVAL': ('disallow_OP_EVAL', 'set'), 'eval_return': ('eval_return', 'set'), 'ts_threshold': ('ts_threshold', '5'),
+         'epoch_threshold': ('epoch_threshold', '5')}
+NAMED_PLACES = ['direct', 'LOOP', 'DEFCALL', 'LOOP>DEFCALL']
+
+
+def judge_named(opname, name, word, place):
+    """A flag instruction whose operand spells the NAME of an embedder setting (disallow_OP_EVAL, eval_return, the two
+    thresholds) is not one of the documented integer-flag instructions: whatever it does (today: an error for SET, nothing
+    for UNSET), the embedder's setting still governs the probe that follows."""
+    pname, cfg = NAMED[name]
+    flagop = bytes([C[opname], len(name)]) + name.encode()
+    pre = flagop
+    for w in reversed([x for x in place.split('>') if x != 'direct']):
+        pre = wrap(w, pre)
+    # does the instruction raise? (observed at top level: inside a TRY context the error would be swallowed with the probe)
+    r0 = run_probe(pname, (), cfg, code_override=pre)
+    if r0['err'] is not None:
+        return None
+    return [(s_.replace('config/', 'flag-instruction/named-operand-%s/' % name), d) for s_, d in
+            judge(pname, word, cfg, _attr=False, code_override=pre + PROBES[pname][0])]
+
+
+def check_named(case):
+    word = tuple(case['context'])
+    if any(w not in CTX for w in word) or case['op'] not in ('OP_SET_FLAG', 'OP_UNSET_FLAG') or case['name'] not in NAMED or case['place'] not in NAMED_PLACES:
+        raise ValueError('domain')
+    return judge_named(case['op'], case['name'], word, case['place']) or []
+
+
+def task_named(ctx):
+    words = [()] + [w for d in range(1, 3) for w in itertools.product(CTX, repeat=d)]
+    n = 0
+    for i, word in enumerate(words):
+        if i % ctx.nshards != ctx.shard:
+            continue
+        for opname in ('OP_SET_FLAG', 'OP_UNSET_FLAG'):
+            for name in NAMED:
+                for place in NAMED_PLACES:
+                    fails = judge_named(opname, name, word, place)
+                    ctx.case(('named', word, opname, name, place), fails is not None)
+                    ctx.count('named-flag-operand:' + ('instruction raises' if fails is None else 'instruction runs'))
+                    n += 1
+                    for s_, d in fails or []:
+                        ctx.fail('named', s_, {'check': 'named', 'context': list(word), 'op': opname, 'name': name, 'place': place}, d)
+    ctx.exhaustive['SET / UNSET_FLAG with an operand spelling an embedder setting x 4 settings x 4 places x contexts of depth <= 2'] = n
+
+
+CALLS4 = ['DEFCALL', 'EVAL', 'MERKLEVAL', 'TAPROOT']
+FILLERS = ['IF', 'IFELSE_E', 'TRY', 'EXCEPT', 'LOOP']
+
+
+def check_budget(case):
+    """Under call-stack limit L a nest of k call-like constructs (function call, EVAL, MERKLEVAL, TAPROOT script path - in
+    any mixture, with conditional / try / loop bodies in between) reaches its innermost body exactly when k <= L."""
+    word, L = tuple(case['context']), case['limit']
+    if any(w not in CTX for w in word) or 'SELFCALL' in word or not 1 <= L <= 8:
+        raise ValueError('domain')
+    k = sum(1 for w in word if w in CALLS4)
+    code = nest(word, op('OP_TRUE') + W(b'mk'))
+    tape, stack, cache = F.Tape(code, callstack_limit=L), F.Stack(), {}
+    err = None
+    try:
+        F.run_tape(tape, stack, cache)
+    except BaseException as e:  # noqa
+        if isinstance(e, (KeyboardInterrupt, SystemExit)):
+            raise
+        err = type(e).__name__
+    ran = b'mk' in cache
+    if ran != (k <= L):
+        return [('limits/callstack-limit/%s' % ('body-runs-beyond-the-limit' if ran else 'body-refused-within-the-limit'),
+                 'limit %d, %d call-like constructs in %r (err %r)' % (L, k, word, err))]
+    if k > L and err is None and not any(w in ('TRY',) for w in word):
+        return [('limits/callstack-limit/no-error-beyond-the-limit', 'limit %d in %r' % (L, word))]
+    return []
+
+
+def task_budget(ctx):
+    n = 0
+    idx = 0
+    for L in (1, 2, 3):
+        for k in (L - 1, L, L + 1):
+            if k < 1:
+                continue
+            for base in itertools.product(CALLS4, repeat=k):
+                variants = [base] + [base[:pos] + (f,) + base[pos:] for pos in range(k + 1) for f in FILLERS]
+                for word in variants:
+                    idx += 1
+                    if idx % ctx.nshards != ctx.shard:
+                        continue
+                    case = {'check': 'budget', 'context': list(word), 'limit': L}
+                    fails = check_budget(case)
+                    ctx.case(('budget', word, L), True)
+                    ctx.count('call-budget:' + ('within' if k <= L else 'beyond'))
+                    n += 1
+                    for s_, d in fails:
+                        ctx.fail('budget', s_, case, d)
+    ctx.exhaustive['nests of L-1 / L / L+1 call-like constructs (4 kinds, every mixture) under limit L = 1..3, plain and with one IF / ELSE / TRY / EXCEPT / LOOP body at every position'] = n
+
+
 def task_deep(ctx):
     """drawn contexts of depth 4-5 (6 in thorough)."""
     from .. import hyp
@@ -528,4 +634,4 @@ def task_deep(ctx):
     hyp.drive(strat, one, ctx.n(2000, 60000), ctx.seed)
 
 
-TASKS = {'contexts': (task_contexts, 16, 16), 'flagops': (task_flagops, 4, 8), 'deep': (task_deep, 8, 16)}
+TASKS = {'contexts': (task_contexts, 16, 16), 'flagops': (task_flagops, 4, 8), 'named': (task_named, 2, 4), 'budget': (task_budget, 2, 4), 'deep': (task_deep, 8, 16)}
